@@ -9,11 +9,13 @@ property statement (Python oracle below, independent of the Lean model).
 import ast, os, json, glob, logging, itertools
 from . import common
 
-RULE = ('corpus first; exhaustive: every sequence of <= 2 requests over {ordinary query, no-OK query, command} x '
+RULE = ('corpus first; data lines include nicknames that begin with / equal / contain OK in any case, empty and blank '
+        'payloads; every data line followed by every kind of next request; the same request repeated on the same port '
+        'with a different answer; exhaustive: every sequence of <= 2 requests over {ordinary query, no-OK query, command} x '
         'delay {0,1,100,101} empty reads before every reply line x {no fault, one fault of every kind at every '
         'write / before, inside, instead of, after every reply line, error line}; every 3-request sequence without '
         'fault; random 3-request sequences with a fault; random longer histories (4-12 calls, several faults, junk '
-        'already queued, missing port / text, verbose flag, out-of-alphabet bytes).  A case is one call of one '
+        'already queued, missing port / text, verbose flag, out-of-alphabet bytes), half of them run pairwise interleaved on two port objects.  A case is one call of one '
         'history; non-trivial = the call had a port and a text; distinct by (history, position)')
 TRUSTED = ['harness/c07.py fake port (pyserial API as used by the code: write, readline) and its script player',
            'AST extraction of retry bounds / no-OK list / decode-in-retry-loop from plotink/ebb_serial.py',
@@ -35,20 +37,28 @@ DOC_NO_OK = ['a', 'i', 'mr', 'pi', 'qm', 'qg', 'v']           # from the propert
 OK = b'OK\r\n'
 ERRLINE = b'!8 Err: Unknown command\r\n'
 
-# request table: text -> kind ('q2' ordinary query, 'q1' no-OK query, 'c' command), with the data line a board sends
-Q2 = [('QS\r', b'1200,-340\r\n'), ('QB\r', b'0\r\n'), ('QP\r', b'1\r\n'), ('QT\r', b'a1b2\r\n'),
+# request table: (text, data line a conforming board sends); a text may occur with several data lines.
+# kind 'q2' = ordinary query (data line, then OK), 'q1' = no-OK query (one line), 'c' = command (OK).
+# QT reads back the nickname, which is free user text: data lines that begin with / equal / contain "OK" in
+# any case, an empty nickname (the data line is only the terminator) and blank-ish payloads are all
+# legitimate data lines of a conforming board.
+NICKS = ['a1b2', 'AxiDraw 7', 'OK Corral', 'OKAY', 'OK', 'Ok', 'ok', 'okay then', 'Plotter-OK', ' OK go', 'OK\t1',
+         'OKOK', 'O', 'K', 'Err', '', ' ', '0']
+Q2 = [('QS\r', b'1200,-340\r\n'), ('QB\r', b'0\r\n'), ('QP\r', b'1\r\n'),
       ('QC\r', b'0394,0300\r\n'), ('QN\r', b'7\r\n'), ('QE\r', b'0,0\r\n'), ('QL\r', b'3\r\n'),
-      ('ES\r', b'0,0,0,0,0\r\n'), ('QR\r', b'1\r\n')]
+      ('ES\r', b'0,0,0,0,0\r\n'), ('QR\r', b'1\r\n'), ('QB\r', b'1\r\n'), ('QS\r', b'0,0\r\n'),
+      ('QP\r', b'0\r\n'), ('QL\r', b'\n'), ('QN\r', b'4294967295\r\n')] + \
+     [('QT\r', (n + '\r\n').encode('ascii')) for n in NICKS]
 Q1 = [('A\r', b'A,00:0713,02:0241\r\n'), ('I\r', b'I,128,255,130,000,007\r\n'), ('MR,3\r', b'MR,71\r\n'),
       ('PI,B,3\r', b'PI,1\r\n'), ('QM\r', b'QM,0,0,0,0\r\n'), ('QG\r', b'3E\r\n'),
       ('V\r', b'EBBv13_and_above EB Firmware Version 2.8.1\r\n'), ('v\r', b'EBBv13_and_above EB Firmware Version 2.7.0\r\n'),
-      ('qg\r', b'1F\r\n'), ('Pi,C,0\r', b'PI,0\r\n')]
+      ('qg\r', b'1F\r\n'), ('Pi,C,0\r', b'PI,0\r\n'), ('QG\r', b'00\r\n'), ('PI,B,3\r', b'PI,0\r\n'),
+      ('QM\r', b'QM,1,1,1,0\r\n'), ('MR,3\r', b'MR,0\r\n')]
 CM = [('EM,1,1\r', None), ('SP,1\r', None), ('SM,100,10,-10\r', None), ('RB\r', None), ('TP\r', None),
-      ('SC,4,16000\r', None), ('XM,500,10,10\r', None), ('rb\r', None), ('CS\r', None)]
+      ('SC,4,16000\r', None), ('XM,500,10,10\r', None), ('rb\r', None), ('CS\r', None), ('SP,0\r', None)]
 KIND = {t: 'q2' for t, _ in Q2}
 KIND.update({t: 'q1' for t, _ in Q1})
 KIND.update({t: 'c' for t, _ in CM})
-DATA = dict(Q2 + Q1)
 
 EXC_NAMES = ['SerialException', 'OSError', 'SerialTimeoutException', 'IOError', 'PortNotOpenError']
 
@@ -211,10 +221,22 @@ def show_res(r):
     return 'OTHER:' + type(r).__name__
 
 
-def run_impl(es, hist):
-    port = FakePort(expand(hist['pre']), ['o' if ch == 'o' else hist.get('wexc', 'SerialException') for ch in hist['w']])
-    obs = []
-    for call in hist['calls']:
+class Session:
+    """one history played call by call on its own fake port (so that several can be interleaved)"""
+
+    def __init__(self, es, hist):
+        self.es, self.hist, self.k = es, hist, 0
+        self.port = FakePort(expand(hist['pre']),
+                             ['o' if ch == 'o' else hist.get('wexc', 'SerialException') for ch in hist['w']])
+        self.obs = []
+
+    def done(self):
+        return self.k >= len(self.hist['calls'])
+
+    def step(self):
+        es, port = self.es, self.port
+        call = self.hist['calls'][self.k]
+        self.k += 1
         q0, w0, r0 = port.qlen(), len(port.writes), port.nread
         wok = not port.wscript or port.wscript[0] == 'o'
         present = call['port']
@@ -230,9 +252,29 @@ def run_impl(es, hist):
         port.pending = None
         new = port.writes[w0:]
         wr = '|'.join(common.enc_str(w.decode('latin-1')) if isinstance(w, (bytes, bytearray)) else 'NOTBYTES' for w in new) or '~'
-        obs.append({'res': res, 'value': r, 'exc': exc, 'writes': new, 'nread': port.nread - r0, 'qbefore': q0, 'wok': wok,
-                    'qafter': port.qlen(), 'canon': f'{res} {len(new)} {wr} {port.nread - r0} {port.qlen()}'})
-    return obs, port
+        self.obs.append({'res': res, 'value': r, 'exc': exc, 'writes': new, 'nread': port.nread - r0, 'qbefore': q0,
+                         'wok': wok, 'qafter': port.qlen(),
+                         'canon': f'{res} {len(new)} {wr} {port.nread - r0} {port.qlen()}'})
+
+
+def run_impl(es, hist):
+    s = Session(es, hist)
+    while not s.done():
+        s.step()
+    return s.obs, s.port
+
+
+def run_impl_interleaved(es, hists, rng):
+    """several histories, each on its own port object, their calls interleaved in one process: the calls on one
+    port must be unaffected by what happens on another (no state outside the port)"""
+    ss = [Session(es, h) for h in hists]
+    live = [x for x in ss if not x.done()]
+    while live:
+        x = rng.choice(live)
+        x.step()
+        if x.done():
+            live.remove(x)
+    return [(x.obs, x.port) for x in ss]
 
 
 def model_line(params, hist):
@@ -309,7 +351,7 @@ def conforming(kind, reply):
         return False
     if kind == 'c':
         return first.startswith('OK') and i == len(toks)
-    if 'Err:' in first or first.startswith('OK'):
+    if 'Err:' in first:         # an error reply, not a data line (a data line may well begin with "OK")
         return False
     if kind == 'q1':
         return i == len(toks)
@@ -327,9 +369,24 @@ def judge(ctx, hist, obs, port):
     """judge every call of the history against the statement"""
     if not in_alphabet(hist):
         return
+    # does the history up to here consist of conforming exchanges only (statement: "consecutive requests against a
+    # conforming board stay aligned")?  Then every query must return its own data line, whatever the
+    # implementation has left in the device queue.
+    board_ok = not hist['pre']
     for k, (call, o) in enumerate(zip(hist['calls'], obs)):
         inp = {'history': hist, 'call': k}
         kindname = 'query' if call['kind'] == 'q' else 'command'
+        history_conforming, board_ok = board_ok, False     # re-established at the end of this iteration
+        if history_conforming and call['port'] and call['cmd'] not in (None, '') and o['exc'] is None \
+                and o['wok'] and KIND.get(call['cmd']) is not None and conforming(KIND[call['cmd']], call['reply']):
+            board_ok = True
+            if call['kind'] == 'q' and o['qbefore'] != 0:
+                own = first_line(call['reply'], DOC_RETRY + 1)[0]
+                if o['value'] != own:
+                    ctx.violate('query returned a line that belongs to another request (conforming board, replies shifted)',
+                                inp, repr(o['value']), repr(own))
+        elif history_conforming and (not call['port'] or call['cmd'] is None):
+            board_ok = True
         if not call['port'] or call['cmd'] is None:
             # a request with no port or no text does nothing
             if o['exc'] is not None:
@@ -405,12 +462,12 @@ def strict_expectation(hist, k, o):
 DELAYS = [0, 1, 100, 101]
 
 
-def base_reply(kind, text, delays):
+def base_reply(kind, data, delays):
     if kind == 'c':
         return [['e', delays[0]], L(OK)]
     if kind == 'q1':
-        return [['e', delays[0]], L(DATA[text])]
-    return [['e', delays[0]], L(DATA[text]), ['e', delays[1]], L(OK)]
+        return [['e', delays[0]], L(data)]
+    return [['e', delays[0]], L(data), ['e', delays[1]], L(OK)]
 
 
 def variants(kind):
@@ -445,31 +502,57 @@ def mk_call(text, reply, verbose=True, port=True):
 
 
 def pick(table, i):
-    return table[i % len(table)][0]
+    """(text, data) pair number i of the table, rotating"""
+    return table[i % len(table)]
 
 
 def gen_exhaustive(ctx):
     rng = ctx.rng
     tables = {'q2': Q2, 'q1': Q1, 'c': CM}
     cnt = itertools.count()
-    # --- single calls: every text of every table x every delay pattern x every fault
+    # --- single calls (fresh port each): every (text, data) of every table x every delay pattern x every fault
     for kind, table in tables.items():
-        for text, _ in table:
+        for text, data in table:
             for dl in variants(kind):
-                rep = base_reply(kind, text, dl)
+                rep = base_reply(kind, data, dl)
                 yield {'pre': [], 'w': '', 'calls': [mk_call(text, rep)]}
                 exc = EXC_NAMES[next(cnt) % len(EXC_NAMES)]
                 yield {'pre': [], 'w': 'x', 'wexc': exc, 'calls': [mk_call(text, rep)]}
                 for fr in fault_variants(rep, exc):
                     yield {'pre': [], 'w': '', 'calls': [mk_call(text, fr, verbose=bool(next(cnt) % 2))]}
+    # --- the same request repeated on the same port with a different answer each time (all ordered pairs of
+    #     data lines of a text), then a different request: nothing may be remembered from the earlier call
+    for kind in ('q2', 'q1'):
+        by_text = {}
+        for text, data in tables[kind]:
+            by_text.setdefault(text, []).append(data)
+        for text, datas in by_text.items():
+            for a in datas:
+                for b in datas:
+                    if a != b:
+                        d1, d2 = DELAYS[next(cnt) % 3], DELAYS[next(cnt) % 3]
+                        t3, x3 = pick(Q2, next(cnt))
+                        yield {'pre': [], 'w': '', 'calls': [mk_call(text, base_reply(kind, a, (d1, d2))),
+                                                             mk_call(text, base_reply(kind, b, (d2, d1))),
+                                                             mk_call(t3, base_reply('q2', x3, (0, 0))),
+                                                             mk_call(text, base_reply(kind, a, (0, 1)))]}
+    # --- every data line followed by every kind of next request (alignment is a property of what comes next)
+    for kind in ('q2', 'q1'):
+        for text, data in tables[kind]:
+            for k2 in ('q2', 'q1', 'c'):
+                t2, x2 = pick(tables[k2], next(cnt))
+                t3, x3 = pick(Q2, next(cnt))
+                yield {'pre': [], 'w': '', 'calls': [mk_call(text, base_reply(kind, data, (0, 0))),
+                                                     mk_call(t2, base_reply(k2, x2, (0, 0))),
+                                                     mk_call(t3, base_reply('q2', x3, (1, 0)))]}
     # --- pairs: all kinds x delays, no fault and one fault anywhere
     kinds = ['q2', 'q1', 'c']
     for k1 in kinds:
         for k2 in kinds:
             for d1 in variants(k1):
                 for d2 in variants(k2):
-                    t1, t2 = pick(tables[k1], next(cnt)), pick(tables[k2], next(cnt))
-                    r1, r2 = base_reply(k1, t1, d1), base_reply(k2, t2, d2)
+                    (t1, x1), (t2, x2) = pick(tables[k1], next(cnt)), pick(tables[k2], next(cnt))
+                    r1, r2 = base_reply(k1, x1, d1), base_reply(k2, x2, d2)
                     yield {'pre': [], 'w': '', 'calls': [mk_call(t1, r1), mk_call(t2, r2)]}
                     exc = EXC_NAMES[next(cnt) % len(EXC_NAMES)]
                     yield {'pre': [], 'w': 'x', 'wexc': exc, 'calls': [mk_call(t1, r1), mk_call(t2, r2)]}
@@ -481,13 +564,13 @@ def gen_exhaustive(ctx):
     # --- triples without fault
     for ks in itertools.product(kinds, repeat=3):
         for ds in itertools.product(*[variants(k) for k in ks]):
-            ts = [pick(tables[k], next(cnt)) for k in ks]
-            yield {'pre': [], 'w': '', 'calls': [mk_call(t, base_reply(k, t, d)) for k, t, d in zip(ks, ts, ds)]}
+            ps = [pick(tables[k], next(cnt)) for k in ks]
+            yield {'pre': [], 'w': '', 'calls': [mk_call(t, base_reply(k, x, d)) for k, (t, x), d in zip(ks, ps, ds)]}
     # --- triples with one fault (sample)
     for _ in range(ctx.n(4000)):
         ks = [rng.choice(kinds) for _ in range(3)]
-        ts = [rng.choice(tables[k])[0] for k in ks]
-        reps = [base_reply(k, t, rng.choice(variants(k))) for k, t in zip(ks, ts)]
+        ps = [rng.choice(tables[k]) for k in ks]
+        reps = [base_reply(k, x, rng.choice(variants(k))) for k, (t, x) in zip(ks, ps)]
         exc = rng.choice(EXC_NAMES)
         w = ''
         j = rng.randrange(3)
@@ -495,7 +578,8 @@ def gen_exhaustive(ctx):
             w = 'o' * j + 'x'
         else:
             reps[j] = rng.choice(fault_variants(reps[j], exc))
-        yield {'pre': [], 'w': w, 'wexc': exc, 'calls': [mk_call(t, r, verbose=rng.random() < 0.5) for t, r in zip(ts, reps)]}
+        yield {'pre': [], 'w': w, 'wexc': exc,
+               'calls': [mk_call(t, r, verbose=rng.random() < 0.5) for (t, x), r in zip(ps, reps)]}
 
 
 RDELAYS = [0, 0, 0, 0, 1, 1, 2, 3, 17, 50, 99, 100, 100, 101, 102, 250]
@@ -510,9 +594,9 @@ def gen_random(ctx):
         p_fault = rng.choice([0.0, 0.0, 0.05, 0.15, 0.4])
         for _ in range(n):
             k = rng.choice(['q2', 'q2', 'q1', 'q1', 'c'])
-            t = rng.choice(tables[k])[0]
+            t, x = rng.choice(tables[k])
             dl = (rng.choice(RDELAYS), rng.choice(RDELAYS))
-            rep = base_reply(k, t, dl)
+            rep = base_reply(k, x, dl)
             if rng.random() < p_fault:
                 rep = rng.choice(fault_variants(rep, rng.choice(EXC_NAMES)))
             r = rng.random()
@@ -634,22 +718,46 @@ def run(ctx):
                         raise common.Infra(f'Python oracle and Lean Spec `arrived` disagree on {h} call {k}: {req!r} vs {spec}')
         batch.clear()
 
-    for src_, h in histories():
-        nhist += 1
-        obs, port = run_impl(es, h)
-        dom = in_alphabet(h)
-        judge(ctx, h, obs, port)
-        if src_ == 'rnd' or nhist % 4001 == 1:
-            ctx.sample({'history': model_line(params, h), 'impl': [o['canon'] for o in obs]}, cap=8)
-        if ctx.driver:
-            batch.append((src_, h, obs, dom))
-            if len(batch) >= 5000:
-                flush()
+    import random as _random
+    grp_rng = _random.Random(ctx.seed * 7919 + 7)
+
+    def groups():
+        """single histories; about half of the random ones are paired and run interleaved on two ports"""
+        held = None
+        for src_, h in histories():
+            if src_ == 'rnd' and grp_rng.random() < 0.5:
+                if held is None:
+                    held = h
+                else:
+                    yield src_, [held, h]
+                    held = None
+            else:
+                yield src_, [h]
+        if held is not None:
+            yield 'rnd', [held]
+
+    ninter = 0
+    for src_, hs in groups():
+        if len(hs) == 1:
+            results = [run_impl(es, hs[0])]
         else:
-            for k, o in enumerate(obs):
-                ctx.count((json.dumps(h, sort_keys=True), k), None, bool(h['calls'][k]['port']))
+            ninter += 1
+            results = run_impl_interleaved(es, hs, grp_rng)
+        for h, (obs, port) in zip(hs, results):
+            nhist += 1
+            dom = in_alphabet(h)
+            judge(ctx, h, obs, port)
+            if src_ == 'rnd' or nhist % 4001 == 1:
+                ctx.sample({'history': model_line(params, h), 'impl': [o['canon'] for o in obs]}, cap=8)
+            if ctx.driver:
+                batch.append((src_, h, obs, dom))
+                if len(batch) >= 5000:
+                    flush()
+            else:
+                for k, o in enumerate(obs):
+                    ctx.count((json.dumps(h, sort_keys=True), k), None, bool(h['calls'][k]['port']))
     flush()
-    ctx.notes.append(f'{nhist} histories')
+    ctx.notes.append(f'{nhist} histories, {ninter} pairs of them interleaved on two port objects')
     if ctx.driver and not ctx.disagreements and not ctx.violations:
         missing = [p for p in EXPECTED_PATHS if p not in ctx.paths]
         if missing:
